@@ -283,3 +283,24 @@ def param_mutations(fn, params, **kw):
                 continue
             out.append((node, root, what))
     return out, eff
+
+
+def class_property_summaries(cls, base=None, rounds=4):
+    """{'self.name': ('fresh',)} for every property of the class whose getter returns fresh objects on every return (copies, computed arrays), judged with the
+    properties already found fresh; a property that may hand out the object's own storage is left out (its value aliases `self`)"""
+    out = dict(base or {})
+    getters = [m for m in cls.body if isinstance(m, ast.FunctionDef) and any(norm(d) == 'property' for d in m.decorator_list)]
+    for _ in range(rounds):
+        changed = False
+        for g in getters:
+            key = 'self.' + g.name
+            if key in out:
+                continue
+            eff = Effects(g, summaries=out)
+            rets = [s for s in walk_no_nested(g) if isinstance(s, ast.Return) and s.value is not None]
+            if rets and all(eff.origins(r.value) == {FRESH} for r in rets):
+                out[key] = ('fresh',)
+                changed = True
+        if not changed:
+            break
+    return out
